@@ -176,6 +176,17 @@ Definition wdict_get {V R L} (d:wdict V) (w:world) : ctl R L V :=
 (* d.get(w): None when the key is missing *)
 Definition wdict_getopt (d:wdict (option Z)) (w:world) : option Z :=
   match wdict_find d w with Some v => v | None => None end.
+(* d[w] = v: replaces the value of an existing key in place, appends a new key *)
+Fixpoint wdict_set {V} (d:wdict V) (w:world) (v:V) : wdict V :=
+  match d with [] => [(w, v)] | (w', v')::r => if beq w' w then (w, v) :: r else (w', v') :: wdict_set r w v end.
+(* sets of worlds: duplicate-free lists in insertion order *)
+Definition wset_add (s:list world) (w:world) : list world := if existsb (beq w) s then s else s ++ [w].
+(* k in d *)
+Definition zdict_mem {V} (d:dict Z V) (k:Z) : bool := match zdict_find d k with Some _ => true | None => false end.
+(* sorted(l) on integers: insertion sort *)
+Fixpoint zinsert (x:Z) (l:list Z) : list Z :=
+  match l with [] => [x] | y::r => if (x <=? y)%Z then x :: y :: r else y :: zinsert x r end.
+Definition zsort (l:list Z) : list Z := fold_right zinsert [] l.
 Definition is_none {A} (o:option A) : bool := match o with None => true | Some _ => false end.
 (* a < b where either side may be None (TypeError) *)
 Definition py_lt_opt {R L} (a b:option Z) : ctl R L bool :=
